@@ -14,7 +14,7 @@
 //   ratios exceeds 1 - 2^-10 or is not finite.  The double evaluation only pre-selects: every suspect
 //   is re-decided by the Python side in exact rational arithmetic, so no false alarm and no miss can come
 //   from the 1e-15 evaluation error of the doubles (the bounds are >= 1e-12 wherever the weight is not exact).
-// prints: n <count> ; each <ratio> <f> ; unity <ratio> <f> ; moment <ratio> <f> ; zero <0|1> ; suspects f...
+// prints: n <count> ; nsus <number of suspects> ; each <ratio> <f> ; unity <ratio> <f> ; moment <ratio> <f> ; zero <0|1> ; suspects f...
 static void do_coeffsweepb()
 {
     std::string id = next();
@@ -31,7 +31,7 @@ static void do_coeffsweepb()
         e = ldexp((double)v, -64);
         if ((unsigned long long)ldexp(e, 64) != v) { fprintf(stderr, "bound not representable as a double\n"); exit(3); }
     }
-    struct R { double re = 0, ru = 0, rm = 0; float fe = 0, fu = 0, fm = 0; uint64_t cnt = 0; std::vector<float> sus; };
+    struct R { double re = 0, ru = 0, rm = 0; float fe = 0, fu = 0, fm = 0; uint64_t cnt = 0, nsus = 0; std::vector<float> sus; };
     std::vector<R> rs(nth);
     std::vector<std::thread> th;
     const int c = (it - 1) / 2;
@@ -79,7 +79,7 @@ static void do_coeffsweepb()
                     if (q > r.rm || q != q) { r.rm = q; r.fm = f; }
                     fq *= x;
                 }
-                if (sus && r.sus.size() < 64) r.sus.push_back(f);
+                if (sus) { r.nsus++; if (r.sus.size() < 64) r.sus.push_back(f); }
                 r.cnt++;
             }
         });
@@ -87,7 +87,7 @@ static void do_coeffsweepb()
     for (auto& x : th) x.join();
     R a;
     for (auto& r : rs) {
-        a.cnt += r.cnt;
+        a.cnt += r.cnt; a.nsus += r.nsus;
         if (r.re > a.re || r.re != r.re) { a.re = r.re; a.fe = r.fe; }
         if (r.ru > a.ru || r.ru != r.ru) { a.ru = r.ru; a.fu = r.fu; }
         if (r.rm > a.rm || r.rm != r.rm) { a.rm = r.rm; a.fm = r.fm; }
@@ -97,8 +97,8 @@ static void do_coeffsweepb()
     SourceMap::calcCoefficiants(w0, 0.0f, it);
     bool unit = true;
     for (unsigned j = 0; j < it; j++) unit = unit && (w0[j] == ((int)j == c ? 1.0f : 0.0f));
-    printf("case %s\nn %llu\neach %a %a\nunity %a %a\nmoment %a %a\nzero %d\nsuspects", id.c_str(), (unsigned long long)a.cnt,
-           a.re, (double)a.fe, a.ru, (double)a.fu, a.rm, (double)a.fm, unit ? 1 : 0);
+    printf("case %s\nn %llu\nnsus %llu\neach %a %a\nunity %a %a\nmoment %a %a\nzero %d\nsuspects", id.c_str(), (unsigned long long)a.cnt,
+           (unsigned long long)a.nsus, a.re, (double)a.fe, a.ru, (double)a.fu, a.rm, (double)a.fm, unit ? 1 : 0);
     for (float f : a.sus) pf(f);
     printf("\nend\n");
 }
